@@ -19,10 +19,10 @@ GEN = ["C01", "C02", "C03", "C05", "C07"]
 
 class B:
     """one symbolic run of a builder method"""
-    def __init__(self, ctx, method, mk_args, transform="identity", hooks=0, cls="GCodeBuilder"):
+    def __init__(self, ctx, method, mk_args, transform="identity", hooks=0, cls="GCodeBuilder", fresh_params=False):
         self.ctx, self.method, self.w = ctx, method, ctx.w
         st = State(T, {}, {}, [])
-        self.g, wf, self.info = mk_builder(st, ctx.w, transform, hooks, cls)
+        self.g, wf, self.info = mk_builder(st, ctx.w, transform, hooks, cls, fresh_params=fresh_params)
         self.sref, self.pref = self.info["state"], self.info["params"]
         args, kwargs, wfa, reals = mk_args(ctx, st)
         self.args, self.kwargs = args, kwargs
@@ -88,7 +88,9 @@ class B:
             ctx.check(f"wf core/state distance mode [{tag}]", o1["_distance_mode"].idx == e.heap[self.sref.oid]["_current_distance_mode"].idx, e, ["C01", "C07", "C05"], "inv")
             ctx.check(f"wf tool flags consistent [{tag}]", wf_tool(w, e.heap, self.sref), e, ["C07", "C02", "C06"], "inv", known.get("wf_tool"))
             ctx.check(f"wf tracked positions finite [{tag}]", AND(*[OR(c.none, c.inner.finite) for c in list(o1["_current_axes"].items()) + list(e.heap[self.sref.oid]["_current_axes"].items())]), e, ["C01", "C03"], "inv")
-            ctx.check(f"wf params shared [{tag}]", z3.BoolVal(e.heap[self.sref.oid]["_current_params"].oid == o1["_current_params"].oid), e, ["C07", "C20"], "inv")
+            sp1, cp1 = e.heap[self.sref.oid]["_current_params"], o1["_current_params"]
+            both_empty = AND(*[NOT(p) for p in e.heap[sp1.oid]["$d"].present.values()], *[NOT(p) for p in e.heap[cp1.oid]["$d"].present.values()])
+            ctx.check(f"wf params shared (or both still empty, as in a fresh builder) [{tag}]", OR(z3.BoolVal(sp1.oid == cp1.oid), both_empty), e, ["C07", "C20"], "inv")
             # ---- C02 safety and C03 bounds on every emitted block, in the modal / machine state it is emitted in
             ms, M = self.ms0, self.M0
             for i, (g, s) in enumerate(blocks):
@@ -722,3 +724,128 @@ def u_rapid_hooks(ctx):
     b = B(ctx, "rapid", motion_args, hooks=nh)
     for e in b.exits:
         ctx.check(f"C20 a rapid move calls no hook [{e.kind}@{e.where}]", z3.BoolVal(not any(ev[0] == "hook" for g, ev in e.log)), e, ["C20"], "post")
+
+
+# ---------------------------------------------------------------------------------------------- Init: the freshly constructed builder
+def _fresh(method, mk, tag=""):
+    @unit(f"GCodeBuilder.{method}[fresh builder: unshared empty params]", ["C01", "C05", "C07", "C20"])
+    def u(ctx):
+        """the generic clauses again from the one reachable state shape the other units do not cover: core and state hold two distinct empty dicts"""
+        b = B(ctx, method, mk, fresh_params=True)
+        b.generic(skip=("C02", "C03") + (("C05", "C07") if method == "move_absolute" else ()))      # bypass moves: C05/C07 with their known-finding regions are in the main unit
+        for e in b.exits:
+            if e.kind == "return" and method in ("move", "rapid", "set_axis", "auto_home", "probe", "move_absolute"):
+                ctx.check("the first tracked move makes core and state share one parameter dict", z3.BoolVal(e.heap[b.sref.oid]["_current_params"].oid == e.heap[b.g.oid]["_current_params"].oid), e, ["C07", "C20"], "inv")
+    return u
+
+
+_fresh("move", motion_args); _fresh("set_axis", motion_args); _fresh("auto_home", motion_args); _fresh("set_feed_rate", one_num)
+_fresh("probe", probe_args); _fresh("move_absolute", motion_args)
+
+
+@unit("Init: freshly constructed GCodeBuilder / GState satisfy the invariants (ground)", ["C01", "C02", "C05", "C07", "C03"])
+def u_init(ctx):
+    """(I) of DESIGN §3.5, evaluated concretely on the objects the real constructors return, for several configurations"""
+    import io, math
+    from gscrib import GCodeBuilder
+    from gscrib.enums import SpinMode, PowerMode, CoolantMode, DistanceMode
+    cfgs = [{}, {"decimal_places": 0, "comment_symbols": "(", "line_endings": "\\r\\n"}, {"x_axis": "A", "y_axis": "B", "z_axis": "C", "output": io.BytesIO()}]
+    for i, cfg in enumerate(cfgs):
+        g = GCodeBuilder(**cfg); s = g.state
+        facts = {
+            "tool flags consistent": (not s.is_tool_active) and s.spin_mode == SpinMode.OFF and s.power_mode == PowerMode.OFF and (not s.is_coolant_active) and s.coolant_mode == CoolantMode.OFF,
+            "core and state distance modes agree (absolute)": g.distance_mode == s.distance_mode == DistanceMode.ABSOLUTE,
+            "tracked positions are unknown or finite": all(c is None or math.isfinite(c) for c in tuple(g.position) + tuple(s.position)),
+            "no parameter is remembered": len(g._current_params) == 0 and len(s._current_params) == 0,
+            "no bounds are configured": len(s._user_bounds._bounds) == 0,
+            "nothing has been emitted and no hook is registered": len(g._hooks) == 0,
+            "feed rate / tool power are finite and non-negative": s.feed_rate == 0 and s.tool_power == 0,
+        }
+        for name, ok in facts.items():
+            ctx.check(f"config#{i}: {name}", z3.BoolVal(bool(ok)), None, None, "init")
+
+
+# ---------------------------------------------------------------------------------------------- remaining writers of the footprint (closure)
+def _set_bounds_unit(key):
+    @unit(f"GCodeBuilder.set_bounds[{key}]", ["C03", "C05", "C01", "C02", "C07", "C20"])
+    def u(ctx):
+        def mk(ctx_, st):
+            if key == "axes":
+                lo, w1 = sym_point("lo", finite=False); hi, w2 = sym_point("hi", finite=False)
+                return [VStr(key), lo, hi], None, AND(w1, w2), [c.inner.val for c in lo.items()] + [c.inner.val for c in hi.items()]
+            lo, w1 = sym_num("lo"); hi, w2 = sym_num("hi")
+            return [VStr(key), lo, hi], None, AND(w1, w2), [lo.val, hi.val]
+        b = B(ctx, "set_bounds", mk)
+        name, lo, hi = b.args
+        b.generic(skip=("C05",))
+        valid_key = key in bound_keys(ctx.w)
+        if key == "axes":
+            rl = [merge(simp(c.none), num(0), c.inner) for c in lo.items()]; rh = [merge(simp(c.none), num(0), c.inner) for c in hi.items()]
+            le = AND(*[n_le(a, c) for a, c in zip(rl, rh)]); lt = OR(*[n_lt(a, c) for a, c in zip(rl, rh)])
+            less = AND(le, lt)                   # Point order: every coordinate <=, at least one <
+        else:
+            less = n_lt(lo, hi) if valid_key else F
+        # set_bounds refuses min >= max; with a NaN bound `min >= max` is false, so the pair is accepted (and then rejects every value: C03 still holds)
+        ge = NOT(less) if key == "axes" else n_le(hi, lo)
+        raises_iff(ctx, b.exits, {"ValueError": z3.BoolVal(not valid_key) if not valid_key else ge}, props=["C03"])
+        for e in b.exits:
+            if e.kind == "raise":
+                ctx.check(f"C05 a rejected set_bounds leaves the table as it was [{e.where}]", unchanged_obj(b.h0, e.heap, b.info["bounds"]), e, ["C05", "C03"], "frame")
+                ctx.check(f"C05 ... and the state [{e.where}]", unchanged_obj(b.h0, e.heap, b.sref), e, ["C05"], "frame")
+                continue
+            d1 = e.heap[e.heap[b.info["bounds"].oid]["_bounds"].oid]["$d"]; d0 = b.h0[b.h0[b.info["bounds"].oid]["_bounds"].oid]["$d"]
+            ctx.check("the entry is recorded, every other entry is untouched, nothing is emitted",
+                      AND(d1.present[key], *[AND(d1.present[k] == d0.present[k], v_same(d1.vals[k], d0.vals[k])) for k in d0.present if k != key],
+                          z3.BoolVal(len(emitted(e.log)) == 0)), e, ["C03"], "post")
+            if key != "axes":
+                ctx.check("recorded limits are the ones given", v_same(d1.vals[key], VTuple([lo, hi])), e, ["C03"], "post")
+    return u
+
+
+for _k in ("axes", "feed-rate", "tool-power", "tool-number", "bed-temperature", "not-a-property"): _set_bounds_unit(_k)
+
+
+@unit("GCodeBuilder.add_hook / remove_hook", ["C20", "C05", "C01", "C02", "C03", "C07"])
+def u_hooks_list(ctx):
+    for method in ("add_hook", "remove_hook"):
+        for present in (False, True):
+            st = State(T, {}, {}, [])
+            g, wf, info = mk_builder(st, ctx.w)
+            x = ctx.executor()
+            h1 = VFunc("hook1", lambda *a: NONE); h2 = VFunc("hook2", lambda *a: NONE)
+            st.heap[st.heap[g.oid]["_hooks"].oid]["$l"] = VList([h1, h2] if present else [h2])
+            ctx.assume(wf)
+            orig_eq = x.eq
+            def eq(a, b, st_, _o=orig_eq):
+                if isinstance(a, VFunc) and isinstance(b, VFunc): return z3.BoolVal(a is b)
+                return _o(a, b, st_)
+            x.eq = eq
+            h0 = st.snap()
+            exits = ctx.run(x, f"GCodeBuilder.{method}", [g, h1], {}, st)
+            never_raises(ctx, exits, tag=f"[{method},{present}]")
+            for e in exits:
+                items = e.heap[e.heap[g.oid]["_hooks"].oid]["$l"].items
+                want = ([h1, h2] if present else [h2, h1]) if method == "add_hook" else [h2]
+                ctx.check(f"{method} ({'already' if present else 'not yet'} registered): hooks are a duplicate-free list in registration order", z3.BoolVal([i for i in items] == want or all(a is b for a, b in zip(items, want)) and len(items) == len(want)), e, ["C20"], "post")
+                ctx.check(f"{method}: nothing else changes, nothing is emitted", AND(unchanged_obj(h0, e.heap, info["state"]), z3.BoolVal(len(e.log) == 0),
+                          v_same(h0[g.oid]["_current_axes"], e.heap[g.oid]["_current_axes"])), e, None, "frame")
+
+
+@unit("GCodeCore.set_distance_mode[GCodeCore object]", ["C01", "C05", "C07", "C02", "C03", "C20"])
+def u_core_sdm(ctx):
+    """the base-class method (GCodeBuilder overrides it): for a plain GCodeCore the tracked mode and the emitted word agree"""
+    st = State(T, {}, {}, [])
+    g, wf, info = mk_builder(st, ctx.w, cls="GCodeCore")
+    x = ctx.executor()
+    m, wfm = sym_enum("DistanceMode", ctx.w, arg=True)
+    ctx.assume(wf, wfm)
+    h0 = st.snap()
+    exits = ctx.run(x, "GCodeCore.set_distance_mode", [g, m], {}, st)
+    covers(ctx, exits)
+    raises_iff(ctx, exits, {"ValueError": NOT(valid(ctx, m, "DistanceMode"))}, props=["C01"])
+    for e in exits:
+        if e.kind != "return": continue
+        blocks = emitted(e.log)
+        rel = m.idx == ctx.w.enum_index("DistanceMode", "RELATIVE")
+        ctx.check("the mode is recorded and exactly the matching word is emitted", AND(e.heap[g.oid]["_distance_mode"].idx == m.idx, z3.BoolVal(len(blocks) == 1),
+                  *[AND(gd, ITE(rel, cmd_is(s, "G91"), cmd_is(s, "G90"))) for gd, s in blocks]), e, None, "post")
